@@ -25,7 +25,7 @@ ASSUMPTIONS = ["one invocation at a time", "the clock is the same for both runs"
 STATES = ("fresh", "after-successful-run", "after-failed-run", "after-two-failed-runs")
 # "vendor" is a nested repository (has its own .git) inside the project; the last two are leftover output
 # directories of failed runs (they exist only in the corresponding states; gc deletes them while running there)
-CWDS = ("pkg", "docs", "cond-out", "cond-out/pkg", "pkg/sub", "vendor", "vendor/lib", "cond-out/pkg/t.task.500", "cond-out/pkg/t.task.501")
+CWDS = ("pkg", "docs", "cond-out", "cond-out/pkg", "pkg/sub", "pkg/sub/a/b/c/d/e/f", "vendor", "vendor/lib", "cond-out/pkg/t.task.500", "cond-out/pkg/t.task.501")
 COMMANDS = (
     ("run", "//pkg:t"), ("run", "--check", "//pkg:t"), ("run", "--again", "//pkg:t"), ("run", "--this-commit", "//pkg:t"),
     ("run", "--at-least", "HEAD", "//pkg:t"), ("where", ":c"), ("where", "-f", ":c"), ("run", "--check", ":c"),
@@ -82,7 +82,7 @@ def build(state, base):
     proj.write("COND", COND_ROOT)
     proj.write("pkg/COND", COND_PKG)
     (proj.root / "docs").mkdir()
-    (proj.root / "pkg" / "sub").mkdir()
+    (proj.root / "pkg" / "sub" / "a" / "b" / "c" / "d" / "e" / "f").mkdir(parents=True)
     (proj.root / "vendor" / ".git").mkdir(parents=True)
     (proj.root / "vendor" / ".git" / "HEAD").write_text("ref: refs/heads/main\n")
     (proj.root / "vendor" / "lib").mkdir()
@@ -188,7 +188,7 @@ def _short(x):
 
 def spaces(tier):
     return [Space("commands-x-directories", make(),
-                  "%d command lines x 4 project states x 9 directories inside the project (package dir, dir without COND, cond-out, "
+                  "%d command lines x 4 project states x 10 directories inside the project (one of them 8 levels deep) (package dir, dir without COND, cond-out, "
                   "package dir under cond-out, nested sub-directory, a nested git repository and a directory below it, leftover "
                   "output directories of failed runs) + outside the project" % len(COMMANDS), depth=3,
                   goals=["command outside any project", "a location is reported from a sub-directory", "archive/restore from a sub-directory succeeds"],
